@@ -81,6 +81,7 @@ pub fn serve_script(seq: &[R], plan: &Plan) -> Outcome {
     steps.push(Step::Eof);
     let sock = ScriptSock::new("198.51.100.7:5555".parse().unwrap(), steps);
     let s2 = sock.clone();
+    let _call = crate::report::enter(&bytes);
     let r = std::panic::catch_unwind(std::panic::AssertUnwindSafe(|| parts.serve(Stream::Tcp(TcpStream::Script(s2)))));
     let g = sock.lock().unwrap();
     let l = log.lock().unwrap().clone();
